@@ -107,15 +107,15 @@ theorem container_spec (db : Bytes → Option (Bytes × Bytes)) (expected : Cid)
 /-- **Inherited soundness (C04) through bitswap**: when every stored header's DAH is the DAH of a
     square (`sq h`, width a power of two), a SAMPLE block for which the multihasher yields a hash carries exactly the
     share at the row and column named by the block's own CID, in the square of the header stored at the CID's height —
-    whatever bytes the peer sent, whichever axis the proof uses.  Hash hypothesis: 32-byte output and no collision among the
-    byte strings hashed by `from_eds` for that square and by the verification of the block's own (decoded) sample —
-    an explicit finite list. -/
-theorem mh_sample_sound {H : HashFn} (P : Params) (store : Nat → Option Dah) (sq : Nat → Eds) (kk : Nat → Nat)
+    whatever bytes the peer sent, whichever axis the proof uses.  Hash hypothesis: 32-byte output and no collision on a set `S`
+    that contains the byte strings hashed by `from_eds` for the stored squares (`edsInputs`) and by the verification of the
+    block's own decoded sample (`sampleInputs` of `decodedSample P input`) — e.g. exactly that finite list. -/
+theorem mh_sample_sound {H : HashFn} {S : Bytes → Prop} (hkS : HashOKOn H S) (P : Params) (store : Nat → Option Dah)
+    (sq : Nat → Eds) (kk : Nat → Nat)
     (hstore : ∀ h d, store h = some d → Dah.ofEds H (sq h) = .ok d ∧ (sq h).width = 2 ^ kk h ∧
-      ∀ sh ∈ (sq h).shares, NS_SIZE ≤ sh.data.length)
+      (∀ sh ∈ (sq h).shares, NS_SIZE ≤ sh.data.length) ∧ ∀ y ∈ edsInputs H (sq h), S y)
     (input hsh : Bytes)
-    (hk : ∀ id s, decodedSample P input = some (id, s) →
-      HashOKOn H (fun y => y ∈ edsInputs H (sq id.row.eds.height) ++ Lumina.Proofs.Sample.sampleInputs H s))
+    (hVS : ∀ id s, decodedSample P input = some (id, s) → ∀ y ∈ Lumina.Proofs.Sample.sampleInputs H s, S y)
     (hok : multihash H P store Lumina.Gen.C15.SAMPLE_ID_MULTIHASH_CODE input = .ok hsh) :
     ∃ cidB cont cid id raw s, P.decodeBlock input = some (cidB, cont) ∧ Cid.read cidB = some cid ∧
       SampleId.ofCid cid = .ok id ∧ P.decodeSample cont = some raw ∧
@@ -161,7 +161,7 @@ theorem mh_sample_sound {H : HashFn} (P : Params) (store : Nat → Option Dah) (
               | some raw =>
                 simp only [hraw] at hdec
                 obtain ⟨hlen, hwf⟩ := sampleFromRaw_ok hdec
-                obtain ⟨hd, hw, hsz⟩ := hstore _ _ hst
+                obtain ⟨hd, hw, hsz, hES⟩ := hstore _ _ hst
                 obtain ⟨hrl, hcl, hrows, hcols⟩ := dah_ofEds_roots hd
                 refine ⟨cidB, cont, cid, id, raw, s, rfl, hcid, hid, hraw, hdec, hok.symm, ?_⟩
                 -- unpack the verification
@@ -198,14 +198,11 @@ theorem mh_sample_sound {H : HashFn} (P : Params) (store : Nat → Option Dah) (
                           cases er <;> simp [ofNmt] at h
                     have hds : decodedSample P input = some (id, s) := by
                       simp only [decodedSample, hdb, hcid, hid, hraw, hdec]
-                    have hkk := hk id s hds
+                    have hkk := hkS
                     have hA : ∀ (ax : Axis) (t : Nat), t < (sq id.row.eds.height).width →
-                        ∀ y ∈ axisInputs H (sq id.row.eds.height) ax t,
-                          y ∈ edsInputs H (sq id.row.eds.height) ++ Lumina.Proofs.Sample.sampleInputs H s :=
-                      fun ax t ht y hy => List.mem_append_left _ (axisInputs_mem_eds ht hy)
-                    have hV : ∀ y ∈ Lumina.Proofs.Sample.sampleInputs H s,
-                        y ∈ edsInputs H (sq id.row.eds.height) ++ Lumina.Proofs.Sample.sampleInputs H s :=
-                      fun y hy => List.mem_append_right _ hy
+                        ∀ y ∈ axisInputs H (sq id.row.eds.height) ax t, S y :=
+                      fun ax t ht y hy => hES y (axisInputs_mem_eds ht hy)
+                    have hV : ∀ y ∈ Lumina.Proofs.Sample.sampleInputs H s, S y := hVS id s hds
                     cases hp : s.proofType with
                     | row =>
                       simp only [hp] at hv
@@ -428,5 +425,35 @@ example : ∃ shares : List Bytes, Lumina.Spec.C06.specRow okEds.width (Lumina.P
     rw [this] at h3; injection h3 with h3; exact h3.symm
   subst e3
   exact ⟨_, h7⟩
+
+/-! ### `mh_sample_sound` applied to the concrete accepted SAMPLE block (block `[2]` of `okP`) -/
+
+/-- the byte strings hashed for the stored square and by the verification of the block's decoded sample -/
+def okSampleHashed : List Bytes :=
+  edsInputs toySum okEds ++
+    (match decodedSample okP [2] with
+     | some (_, s) => Lumina.Proofs.Sample.sampleInputs toySum s
+     | none => [])
+
+set_option maxRecDepth 100000 in
+theorem nonvacuity_okSampleHashed : NoCollOn toySum (fun y => y ∈ okSampleHashed) :=
+  noCollOn_of_list (by decide +kernel)
+
+/-- all hypotheses of `mh_sample_sound` hold: the accepted sample block carries the share at (0, 0) of the stored square -/
+example : ∃ sh, okEds.share? okSampleId.row.index okSampleId.column = some sh := by
+  have hok := yields_ok nonvacuity_accepted.2.2
+  obtain ⟨_, _, _, id, _, s, _, _, _, _, _, hmh, sh, hsh, _⟩ :=
+    mh_sample_sound (S := fun y => y ∈ okSampleHashed) ⟨nonvacuity_okSampleHashed, toySum_len⟩ okP okStore (fun _ => okEds)
+      (fun _ => 1)
+      (fun h d hs => by
+        obtain ⟨h1, h2, h3, _, _⟩ := nonvacuity_okStore h d hs
+        exact ⟨h1, h2, h3, fun y hy => List.mem_append_left _ hy⟩)
+      [2] _
+      (fun id s hds y hy => by
+        apply List.mem_append_right
+        simp only [hds]
+        exact hy)
+      hok
+  exact ⟨okEds.shares.headD default, by decide +kernel⟩
 
 end Lumina.Props.C10
